@@ -133,12 +133,17 @@ pub fn parallel_parse(
             });
             match result {
                 Ok(Some(parsed_data)) => {
-                    tx.send(Ok(parsed_data)).unwrap();
+                    // The collector stops at the first error and drops the receiver:
+                    // a result that can no longer be delivered ends this walker too.
+                    if tx.send(Ok(parsed_data)).is_err() {
+                        return WalkState::Quit;
+                    }
                     WalkState::Continue
                 }
                 Ok(None) => WalkState::Continue,
                 Err(err) => {
-                    tx.send(Err(err)).unwrap();
+                    // Only the first error is reported; a later one may find the channel closed.
+                    let _ = tx.send(Err(err));
                     WalkState::Quit
                 }
             }
